@@ -124,6 +124,10 @@ def run(rep):
                     st.append({'sql': 'SELECT x AS c, x + 1 AS c FROM l UNION%s SELECT x, x FROM r' % q,
                                'expect_rows': setop('UNION', allq, [[v[0], inc(v[0])] for v in l], [[v[0], v[0]] for v in r]), 'tag': 'repeated-column-name'})
             units.append({'db': db, 'stmts': st})
+            # the same inputs under a 1-byte memory limit: the de-duplicating aggregate (and the DISTINCT above INTERSECT / EXCEPT) takes its
+            # hash-partitioned spill path, where equal rows -- NULL-bearing ones included -- must still meet in one partition
+            top = [dict(x, tag=x['tag'] + '|spill') for x in st if x['tag'] in ('UNION', 'INTERSECT', 'EXCEPT', 'UNION ALL', 'INTERSECT ALL', 'EXCEPT ALL', 'nested-left', 'chain')]
+            units.append({'db': dict(db, ctx={'mem_limit': 1}), 'stmts': top})
     rep.rule = ('all pairs of inputs with <= 3 rows over {NULL,1,2} (%s) x UNION/INTERSECT/EXCEPT x DISTINCT/ALL, with ORDER BY+LIMIT and '
                 'nested once on either side with every second operator and quantifier (parenthesized, and as an unparenthesized chain for UNION/EXCEPT), UNION of BIGINT with DOUBLE branches, and select lists repeating a column name; oracle = Counter (multiset) arithmetic with NULLs not distinct, SQLite cross-checks the non-ALL forms; '
                 'non-trivial = some input row exists' % ('1 column' if quick else '1 and 2 columns'))
